@@ -177,7 +177,8 @@ var (
 		"http:\\\\host", "http:/path", "http:opaque", ":nos", "a:b", "./a:b", "HTTP://UP.CASE/", "http://é.example/ü", "", " ", "//", "///x", "http://a.b/c?", "http://a.b/?x=<y>&z=\"",
 		"http://a.b/p%41th", "http://%41.b/", "http://a.b/#fr ag", "http://a.b/#%zz", "*", "http://host/a;b,c", "https://example.com/x y", "%", "http://a.b/\x00", "http://a.b/\x7f",
 		"/search?q=&amp;lt;", "http://example.com/p?x=&amp;amp;y", "?a=1&amp;copy=2", "http://a.b/?x=&lt;y", "/a&#47;b", "data: text/plain", "data:image/png;base64 iVBOR", "data:\ttext/plain", "data:x y,z",
-		"data:image/gif;base64,R0lG ODlh", "DATA:image/png;base64,AAAA", "http://a.b/?q=%26amp%3B", "mailto:a@b.c?subject=x&amp;body=y"}
+		"data:image/gif;base64,R0lG ODlh", "DATA:image/png;base64,AAAA", "http://a.b/?q=%26amp%3B", "mailto:a@b.c?subject=x&amp;body=y",
+		"http://a.b/?a%26b=1", "https://a.b/p?x%3Cy=1&amp;a%22b=2", "http://a.b/?a&amp;b=1&amp;%3C=2", "http://a.b/?%27=1"}
 	RelPool    = []string{"", "nofollow", "noopener", "noreferrer", "nofollow noopener", "xnofollowx", "NOFOLLOW", "author", "a b c", "noopenerx", "no follow"}
 	TargetPool = []string{"_blank", "_BLANK", "_self", "", "x", " _blank"}
 	StylePool  = []string{"color: red", "color:red;", "COLOR: RED", "color: red; width: 1px", "width:1px;color:blue;x-prop:y", "color: \\72 ed",
@@ -188,7 +189,7 @@ var (
 		"x-prop: straSSe", "x-prop: STRAßE", "x-prop: K", "color: red; width: 1PX ", "color:\tred", "color: red\r\nwidth:1px", "color: red\x00", "width: 10%", "color: #fff", "color: rgb(1,2,3)",
 		"a:b:c", "color: red; -->", "<!-- color: red", "color: \"}\"; width: 1px", "@import 'x'; color: red", "color: red; @media", "width: 1e3px", "width: .5em", "width: 1.", "color: U+0-7F",
 		"color: \xff", "color\xff: red", "\xef\xbb\xbfcolor: red", "color: url( 'a' )", "color: u\\72l(x)", "color: x(", "color: x()", "color: a~=b", "color: a|b", "color: $=x", "color: *", "color: <", "color: <!--x"}
-	TextPool = []string{"hello", " ", "a & b", "1 < 2", "x > y", "&amp;", "&lt;script&gt;", "\"q\"", "'s'", "\r\n", "é", "\x00", "&#60;", "&notit;", "tab\there", "<", "&", "]]>", "MARK"}
+	TextPool = []string{"hello", " ", "a & b", "1 < 2", "x > y", "&amp;", "&lt;script&gt;", "\"q\"", "'s'", "\r\n", "é", "\x00", "&#60;", "&notit;", "tab\there", "<", "&", "]]>", "MARK", "&#13;", "a&#xD;b", "cr\rlf", "&#13;&#10;", "&#10;"}
 )
 
 // SampleRe draws a string from the language of n (best effort; anchors ignored).
